@@ -8,8 +8,8 @@
    point.  The number of consumers does not occur: what is sent to the sink does not depend
    on who receives it.  [cfg0 lim pas] is the configuration without a chosencases filter
    (the filter is property C14).  [step_const] = 4. *)
-From Coq Require Import List Arith Bool.
-From PV Require Import Model.Provider Model.ProviderFile Proofs.ProviderProofs Proofs.ProviderFileProofs.
+From Coq Require Import List Arith Bool NArith.
+From PV Require Import Model.Provider Model.ProviderFile Model.ProviderScan Proofs.ProviderProofs Proofs.ProviderFileProofs Proofs.ProviderScanProofs.
 Import ListNotations.
 
 (* Exactly min of the non-zero bounds among limit and passes*n items are delivered, and they
@@ -143,3 +143,69 @@ Example C08_file_examples :
   /\ f_out (run_file FsOS KGrpcJson (cfg0 0 2) [e 0; e 1] None 100) = FAs Ok
   /\ h_released_once (f_handle (run_file FsMem KScenario (cfg0 3 0) [e 0; e 1] None 100)) = true.
 Proof. repeat split; reflexivity. Qed.
+
+(* ---- the size of the entries and the `maxammosize` option (Model/ProviderScan.v) ---------------
+
+   "every combination of limit and passes" is meant for every valid configuration of the provider
+   and every file it accepts.  grpc/json reads lines through a bufio.Scanner whose token limit
+   belongs to the scanner object, and makes a new scanner for every pass: [run_sz KGrpcJson maxsz]
+   carries the limit of the scanner in use as state ([gz_step]); [szs] are the sizes of the
+   entries' lines, [all_fit_b]: every entry fits the limit the configuration asks for
+   ([new_scanner_cap maxsz]: `maxammosize`, 64 KiB when it is not set). *)
+
+(* For every provider kind, every `maxammosize`, every sizes the configuration accepts, every
+   configuration (filter included), cancellation point and fuel: the run with the scanner is the
+   run of Model/Provider.v — every pass reads every entry, so C08_count / C08_clean_end /
+   C08_no_spin / C08_handle_every_run hold of it verbatim. *)
+Theorem C08_sizes_change_nothing : forall (k : pkind) (maxsz : N) cf es (szs : list N) cancel fuel,
+  all_fit_b k maxsz szs = true ->
+  run_sz k maxsz cf es szs cancel fuel = run k cf es cancel fuel
+  /\ forall fs, run_file_sz fs k maxsz cf es szs cancel fuel = run_file fs k cf es cancel fuel.
+Proof. exact c08_sizes_change_nothing. Qed.
+Print Assumptions C08_sizes_change_nothing.
+
+(* The bounded run with the option and the sizes spelled out: exactly the cyclic prefix of length
+   min of the non-zero bounds, Run nil, sink closed, end of ammo — in whichever pass the large
+   entries are met. *)
+Theorem C08_clean_end_any_max_ammo_size : forall (k : pkind) (maxsz : N) es (szs : list N) lim pas b fuel,
+  es <> [] -> all_fit_b k maxsz szs = true ->
+  bound lim pas (length es) = Some b -> step_const * (b + length es + 1) < fuel ->
+  let r := run_sz k maxsz (cfg0 lim pas) es szs None fuel in
+  delivered r = cyc_prefix es b /\ out r = Ok /\ closed r = true /\ acquire_after r = AcqEndOfAmmo.
+Proof. exact c08_sized. Qed.
+Print Assumptions C08_clean_end_any_max_ammo_size.
+
+(* The mechanism, for ANY way [capf] of setting up the scanner of pass p: if every entry fits the
+   scanner of every pass the run is the one of Model/Provider.v; and a scanner that cannot hold the
+   next entry ends the run there with the scanner's error. *)
+Theorem C08_scanner_of_every_pass : forall (capf : nat -> N) cf es (szs : list N),
+  ((forall p i, token_fits (capf p) (nth i szs 0%N) = true) ->
+   forall cancel fuel, gz_run capf cf es szs cancel fuel = grpcjson_run cf es cancel fuel)
+  /\ (forall c z e, g_inner (z_g z) = true -> nth_error es (g_pos (z_g z)) = Some e ->
+        token_fits (z_cap z) (nth (g_pos (z_g z)) szs 0%N) = false ->
+        gz_step capf cf es szs c z = Stop (Failed EScan) true).
+Proof. exact c08_scanner_of_every_pass. Qed.
+Print Assumptions C08_scanner_of_every_pass.
+
+(* Non-vacuity, and the semantics discriminate: maxammosize = 1 MiB, two entries of 50 and 100000
+   bytes, three passes: all six items, Run nil.  A provider that configures the scanner of the
+   first pass only ([first_pass_only_capf]) fails at the large entry of the second pass with three
+   items delivered; with limit 3 it has delivered the right count and still fails (the loop
+   condition scans the next line before it tests the limit). An entry the configuration refuses
+   (100000 bytes, maxammosize not set) fails in the first pass: outside C08 ([all_fit_b] = false). *)
+Example C08_size_examples :
+  let e i := {| e_tag := i; e_id := i |} in
+  let es := [e 0; e 1] in
+  let szs := [50%N; 100000%N] in
+  let mx := 1048576%N in
+  all_fit_b KGrpcJson mx szs = true
+  /\ ids (delivered (run_sz KGrpcJson mx (cfg0 0 3) es szs None 100)) = [0; 1; 0; 1; 0; 1]
+  /\ out (run_sz KGrpcJson mx (cfg0 0 3) es szs None 100) = Ok
+  /\ ids (delivered (gz_run (first_pass_only_capf mx) (cfg0 0 3) es szs None 100)) = [0; 1; 0]
+  /\ out (gz_run (first_pass_only_capf mx) (cfg0 0 3) es szs None 100) = Failed EScan
+  /\ ids (delivered (gz_run (first_pass_only_capf mx) (cfg0 3 4) es szs None 100)) = [0; 1; 0]
+  /\ out (gz_run (first_pass_only_capf mx) (cfg0 3 4) es szs None 100) = Failed EScan
+  /\ all_fit_b KGrpcJson 0%N szs = false
+  /\ out (run_sz KGrpcJson 0%N (cfg0 0 3) es szs None 100) = Failed EScan
+  /\ ids (delivered (run_sz KGrpcJson 0%N (cfg0 0 3) es szs None 100)) = [0].
+Proof. vm_compute. repeat split; reflexivity. Qed.
